@@ -358,6 +358,38 @@ public class BlogServiceImpl implements BlogService {
     }
 }
 `},
+	{"BlogFacade", "delegates-to-service-method-interface-without-implementing-it", `package web;
+
+import svc.BlogService;
+
+public class BlogFacade {
+    private BlogService service;
+
+    public int count() {
+        return service.count();
+    }
+}
+`},
+	{"BlogController", "controller-delegating-to-service-method-interface", `package web;
+
+import org.springframework.web.bind.annotation.*;
+import svc.BlogService;
+
+@RestController
+@RequestMapping("/api")
+public class BlogController {
+    private BlogService service;
+
+    @GetMapping("/count")
+    public int count() {
+        return service.count();
+    }
+
+    private int helper(int n) {
+        return n;
+    }
+}
+`},
 	{"Blank", "zero-byte-file", ""},
 	{"OnlyComments", "comments-only-file", "// nothing is declared in this file\n/* TODO: or ever */\n\n"},
 }
@@ -618,7 +650,7 @@ func init() {
 	engine.Register(&engine.Spec{
 		ID:    "C07",
 		Title: "A file's analysis result is independent of other files, order and repetition",
-		Rule: "X2 explicit-state BFS over operation sequences from the pristine process state; operations = run one pass (identifier, full, bad-smell, API) on one of 30 residue-leaving files, or build the call / reverse-call / lookup graph of a cyclic model; " +
+		Rule: "X2 explicit-state BFS over operation sequences from the pristine process state; operations = run one pass (identifier, full, bad-smell, API) on one of 32 residue-leaving files, or build the call / reverse-call / lookup graph of a cyclic model; " +
 			"state = canonical dump of every package-level variable of coca's packages (auto-discovered), de-duplicated by hash; invariant on every transition: the operation's observable result equals its result in a pristine process. " +
 			"Per-pass alphabets are explored deeper than the mixed alphabet. Non-trivial = transition from a non-pristine state.",
 		Assumptions: []string{
